@@ -144,6 +144,7 @@ def harnesses(tier):
     node = [5, 3, 1262304000, 77, 9, 1, 123456789, -87654321]
     ways = [9, 1, 5, 6]; cs = [4, 1262304000, 1262305000, 3, 17, 10, 20, 30]
     opl = both(0, 0, -I63, I63, node) + both(0, 3, 0, (1 << 32) - 1, node) + both(0, 4, 0, (1 << 31) - 1, node) + both(0, 0, -I63, I63, node, md=0) + both(3, 0, 0, (1 << 32) - 1, cs) + both(3, 4, 0, (1 << 32) - 1, cs)
+    import C02, C03
     return [
         Harness('opl_object_roundtrip', 'codec', h_opl_roundtrip, mode='INT', jobs=opl if not q else opl[0:3] + opl[3:4] + opl[12:15], native_ok=True,
                 tests=[dict(_job=0, field=12345)],
@@ -152,4 +153,8 @@ def harnesses(tier):
         Harness('pbf_dense_block_roundtrip', 'codec', h_pbf_nodes, jobs=jobs, testgen=lambda rnd: [dict(_job=0, **t) for t in gen_nodes(n, 'small')(rnd)],
                 desc='%d nodes with symbolic id / version / timestamp / changeset / uid / visible / location through PrimitiveBlock::add_dense_node + DenseNodes::serialize + SerializeBlob (no compression), then length prefix, decode_blob_header, decode_blob and PBFPrimitiveBlockDecoder: every field comes back identical (or as its default when the metadata option drops it); the reader accepts what the writer wrote' % n,
                 bounds='%d nodes per block; id / version / changeset / uid / visible symbolic inside four magnitude classes; timestamps and coordinates concrete boundary values per class (their x1000/1000 and x100/100 conversions are 64-bit multiply/divide by constants, which bit-blasting does not decide in time: measured 53 s per query) (small / medium / large / extreme incl. the type boundaries and negative deltas) that fix the varint lengths; metadata subsets %s; no user names and tags (string table), no compression' % (n, 'sampled' if q else 'all 16 x visible flag'), wall=900),
+        Harness('xml_discussion_reader_half', 'xml', C02.h_xml_discussion, jobs=[dict(n=k) for k in ((5, 7) if q else (3, 4, 5, 6, 7, 8, 9))], setup=C03.setup_xml,
+                tests=[dict(_job=0, ev0=1, ev1=2, ev2=3, ev3=4, ev4=7, ch0=65, ch1=66, ch2=67)],
+                desc='reader half of the XML round trip for changeset discussions: expat delivers the text of a comment in several character-data pieces whenever the writer escaped a character in it; XMLParser must deliver the concatenation (same harness as C02 xml_discussion_content)',
+                bounds='event scripts of length <= %d, 3 symbolic character bytes; the XML writer and expat are not encoded' % (7 if q else 9)),
     ]
